@@ -26,7 +26,9 @@ UNARY = {
 # for these the libm call must receive exactly the number the operand denotes
 DIRECT = {'SIN': 'sin', 'COS': 'cos', 'TAN': 'tan', 'ATAN': 'atan', 'SINH': 'sinh', 'COSH': 'cosh', 'TANH': 'tanh',
           'ASINH': 'asinh', 'SQRT': 'sqrt', 'LN': 'log', 'ASIN': 'asin', 'ACOS': 'acos', 'ATANH': 'atanh'}
-OPERAND_TAGS = ['int', 'float', 'bool', 'numtext', 'negnumtext']
+OPERAND_TAGS = ['int', 'float', 'bool', 'numtext', 'negnumtext', 'textforms']
+# other spellings of numbers that float() accepts: concrete texts (a finite enumeration, flagged as such in the bounds)
+TEXT_FORMS = ['1e4', '-2.5E-3', '1.5e-07', ' 7 ', '+3', '.5', '5.', '1_0', '00012', '2.50']
 
 
 def T(x):
@@ -49,6 +51,9 @@ def make_operand(e, tag):
     if tag == 'bool':
         v = e.fresh_bool('x')
         return v, z3.ToReal(zint(v))
+    if tag == 'textforms':
+        t = TEXT_FORMS[e.choose(len(TEXT_FORMS))]
+        return t, _floatval_nofork(float(t))
     t, n = numtext(e, 'x', 2, sign='-' if tag == 'negnumtext' else None)
     return t, z3.ToReal(zint(n))
 
@@ -62,7 +67,8 @@ class Domains(Harness):
           'or for non-numeric text'
     functions = tuple('mathtrig.' + f for f in UNARY) + ('utils.parse_number', 'helper.number.to_number', 'Parser.parse')
     bounds = 'argument: any integer / real in +-10^6 (reals equal to, or at least 2^-30 away from, the domain boundaries -1, 0, 1), ' \
-             'logical, numeric text of 2 digits with optional minus, text of 2 letters'
+             'logical, numeric text of 2 digits with optional minus, 10 further concrete spellings (exponent forms, padding, sign, ' \
+             'underscore), text of 2 letters'
     outside = ('the numeric value returned inside the domain (libm; no SMT theory) and every identity between the functions',
                'arguments so large that the float result overflows')
     stubs = ('math.* = uninterpreted function + documented domain contract (ValueError / ZeroDivisionError outside it)',)
@@ -91,7 +97,10 @@ class Domains(Harness):
         if env.symbolic:
             return E.cur().denoted
         if isinstance(x, str):
-            return _floatval_nofork(int(x))
+            try:
+                return _floatval_nofork(int(x))
+            except ValueError:
+                return _floatval_nofork(float(x))
         return _floatval_nofork(int(x) if isinstance(x, bool) else x)
 
     def post(self, env, inp, out, p):
@@ -100,6 +109,10 @@ class Domains(Harness):
         if p['tag'] == 'text':
             return any_error(out)
         d = self._denoted(env, inp['x'])
+        if p['fn'] in ('EXP', 'COSH', 'SINH'):
+            # beyond |x| = 700 the double result overflows (OverflowError -> an error): outside the claim
+            if T(mkbool(z3.simplify(z3.Or(d > 700, d < -700)))):
+                return True
         dom = UNARY[p['fn']]
         inside = True if dom is None else mkbool(z3.simplify(dom(d)))
         if not T(inside):
